@@ -208,9 +208,9 @@ fn rich_doc(seed: u64) -> Vec<(String, OwnedValue)> {
         v.push(("pad".into(), OwnedValue::Str("Z".repeat(rng.random_range(3000..9000)))));
     }
     // the order in which fields are added is shuffled (values of one field keep their order)
-    let mut order: Vec<usize> = (0..v.len()).collect();
-    order.sort_by_key(|&i| (rng.random_range(0..3u8), i));
-    order.into_iter().map(|i| v[i].clone()).collect()
+    let mut order: Vec<(u8, usize)> = (0..v.len()).map(|i| (rng.random_range(0..3u8), i)).collect();
+    order.sort();
+    order.into_iter().map(|(_, i)| v[i].clone()).collect()
 }
 
 fn doc_of(spec: &Value, id: u64) -> Vec<(String, OwnedValue)> {
@@ -384,7 +384,7 @@ fn main() {
     let a = Args::parse();
     std::panic::set_hook(Box::new(|info| {
         let s = info.to_string();
-        if s.contains("store_driver.rs") {
+        if s.contains("store_driver.rs") || std::env::var("VH_PANICS").is_ok() {
             eprintln!("{s}");
         }
     }));
